@@ -61,6 +61,10 @@ func (c *Client) Produce(args ProduceArgs) (enc.Name, error) {
 		FinalBlockID: &finalBlockId,
 	}
 
+	// work on a copy of the name: the appends below must not write into spare
+	// capacity of the caller's slice, where they would also overwrite one another
+	args.Name = args.Name.Clone()
+
 	// TODO: sign the data
 	basename := append(args.Name, enc.NewVersionComponent(version))
 	signer := sec.NewSha256Signer()
